@@ -247,6 +247,9 @@ def mutate_state(state, k, j):
         return "setter:pairs"
     if t is S.RoiSubsetState:
         roi = state.roi
+        if j % 5 == 4 and state.xatt is not state.yatt:
+            state.xatt, state.yatt = state.yatt, state.xatt        # the attributes behind the region are settable too
+            return "setter:xatt+yatt"
         if k % 2 == 0:
             c = roi.center()
             if isinstance(c, tuple):
